@@ -219,19 +219,19 @@ func SelfCheck() error {
 		}
 	}
 	invalid := map[string]string{
-		"\x201nwldj5":  "charrange",
-		"\x7f1axkwrx":  "charrange",
-		"\x801eym55h":  "charrange",
+		"\x201nwldj5": "charrange",
+		"\x7f1axkwrx": "charrange",
+		"\x801eym55h": "charrange",
 		"an84characterslonghumanreadablepartthatcontainsthenumber1andtheexcludedcharactersbio1569pvx": "length",
-		"pzry9x0s0muk": "separator",
+		"pzry9x0s0muk":  "separator",
 		"1pzry9x0s0muk": "separator",
-		"x1b4n0q5v":    "charset",
-		"li1dgmt3":     "short",
-		"de1lg7wt\xff": "charrange",
-		"A1G7SGD8":     "checksum",
-		"10a06t8":      "separator",
-		"1qzzfhee":     "separator",
-		"A12UEl5L":     "case",
+		"x1b4n0q5v":     "charset",
+		"li1dgmt3":      "short",
+		"de1lg7wt\xff":  "charrange",
+		"A1G7SGD8":      "checksum",
+		"10a06t8":       "separator",
+		"1qzzfhee":      "separator",
+		"A12UEl5L":      "case",
 	}
 	for v, st := range invalid {
 		if r := Decode(v); r.Stage != st {
